@@ -1,0 +1,40 @@
+//go:build verif
+
+package staking
+
+import (
+	"math/big"
+
+	"github.com/youchainhq/go-youchain/common"
+	"github.com/youchainhq/go-youchain/core/state"
+	"github.com/youchainhq/go-youchain/core/types"
+	"github.com/youchainhq/go-youchain/local"
+	"github.com/youchainhq/go-youchain/params"
+)
+
+// Entry points for the C08 verification harness: run the real end-of-period code paths
+// (take-effect handlers, penalty, reward settlement) on a caller-supplied StateDB.
+// Compiled only with the build tag `verif`.
+
+// VerifC08TakeEffect runs the take-effect handler of one staking action, exactly as
+// processPendingTxs does for a pending transaction sent by `from` with account nonce `nonce`.
+func VerifC08TakeEffect(db *state.StateDB, cfg *params.YouParams, header *types.Header, from common.Address, nonce uint64, action ActionType, payload []byte) (*types.Receipt, error) {
+	receipt := types.NewReceipt([]byte{}, false, 0)
+	to := params.StakingModuleAddress
+	msg := types.NewMessage(from, &to, nonce, new(big.Int), 0, new(big.Int), nil, false)
+	ctx := &messageContext{Msg: msg, State: db, Cfg: cfg, Header: header, Receipt: receipt}
+	err := getTeHandler(action)(ctx, payload)
+	return receipt, err
+}
+
+// VerifC08Penalize runs doPenalize (inactivity flavour) for `amount` on validator `val`.
+func VerifC08Penalize(db *state.StateDB, cfg *params.YouParams, header *types.Header, val *state.Validator, amount *big.Int) *big.Int {
+	total, _, _ := doPenalize(cfg, EvidenceTypeInactive, db, header, val, amount, header.Number.Uint64())
+	return total
+}
+
+// VerifC08Settle runs settleValidatorRewards for `val`.
+func VerifC08Settle(db *state.StateDB, cfg *params.YouParams, header *types.Header, val *state.Validator) {
+	ctx := &context{config: cfg, db: db, header: header, receipt: types.NewReceipt([]byte{}, false, 0), recorder: local.FakeRecorder()}
+	settleValidatorRewards(ctx, val, header.Number.Uint64())
+}
